@@ -22,6 +22,14 @@ fn main() {
         clvlib::codec::replay_datagram(&b);
         return;
     }
+    if cmd == "cold-c13" {
+        // exactly one constructor call in a fresh process (nothing has warmed any process-wide state)
+        let n: usize = args[2].parse().expect("num");
+        let more = args[3] == "true";
+        let size: usize = args[4].parse().expect("size");
+        println!("{}", clvlib::blockval::cold_call(n, more, size));
+        return;
+    }
     let num = |n: &str, d: u64| arg(&args, n).map(|v| v.parse::<u64>().expect("number")).unwrap_or(d);
     let lane = arg(&args, "--lane").unwrap_or("dbg").to_string();
     let mut ctx = Ctx {
